@@ -8,6 +8,8 @@ G = "crates/compiler/src/go/"
 types = [it for it in DCEFX.items if isinstance(it, (Adt, Raw))]
 has_eff = copy.copy([it for it in DCEFX.items if isinstance(it, Fn) and it.name == "expr_has_side_effects"][0])
 has_eff.contract_only = True
+stmt_eff = copy.copy([it for it in DCEFX.items if isinstance(it, Fn) and it.name == "stmt_has_side_effects"][0])
+stmt_eff.contract_only = True
 
 PRE = [
     ("for stmt in block.stmts.into_iter().rev() {", "let mut __sv = block.stmts; while __sv.len() > 0 { let stmt = __sv.pop().unwrap();"),
@@ -32,6 +34,9 @@ def loop_inv(k, header, kw):
         return ("invariant new_cases@.len() + __cv@.len() == __c0.len(), __cv@ == __c0.subrange(new_cases@.len() as int, __c0.len() as int),\n"
                 "  forall|i: int| 0 <= i < new_cases@.len() ==> (#[trigger] new_cases@[i]).0 == dce_e(__c0[i].0) && aligned(__c0[i].1.stmts@, 0, new_cases@[i].1.stmts@, 0),\n"
                 "decreases __cv@.len(),")
+    if re.search(r"while\s+__i\d+\s*<", header):      # an `X.iter().any(..)` somewhere (rule iter_any): its answer is not part of the contract
+        mt = re.search(r"while\s+(__i\d+)\s*<\s*([\w\.]+)\.len\(\)", header)
+        return f"invariant {mt.group(1)} <= {mt.group(2)}.len(),\ndecreases {mt.group(2)}.len() - {mt.group(1)},"
     if "__tv.len()" in header:
         return ("invariant new_cases@.len() + __tv@.len() == __t0.len(), __tv@ == __t0.subrange(new_cases@.len() as int, __t0.len() as int),\n"
                 "  forall|i: int| 0 <= i < new_cases@.len() ==> (#[trigger] new_cases@[i]).0 == __t0[i].0 && aligned(__t0[i].1.stmts@, 0, new_cases@[i].1.stmts@, 0),\n"
@@ -42,7 +47,7 @@ def loop_inv(k, header, kw):
 UNIT = Unit(
     name="U-DCEBLK",
     properties=["C09"],
-    rules=[("strip", "ast::"), "opt_map", "let_chain_rev"],
+    rules=[("strip", "ast::"), "opt_map", "let_chain_rev", "iter_any"],
     describe="go::dce::dce_block_with_live (statement-level dead-code elimination, all statement kinds, nested blocks) and effect_stmt: the "
              "output block is, in order, the image of each input statement — the statement itself with DCE applied inside it, or, for a "
              "declaration / assignment whose variable is not needed, just the evaluation of its right-hand side, or nothing at all ONLY IF "
@@ -57,6 +62,7 @@ UNIT = Unit(
     items=types + [
         Raw(path="contracts/dceblk.spec.rs"),
         has_eff,
+        stmt_eff,
         Fn(file=G + "dce.rs", name="effect_stmt", ret="r", rewrites=[('"_".to_string()', "underscore()")],
            contract="ensures eff_stmt_ok(v, r),", obligation="the replacement statement evaluates exactly v"),
         Fn(file=G + "dce.rs", name="dce_block_with_live", ret="r", attrs="#[verifier::loop_isolation(false)]\n#[verifier::rlimit(60)]",
